@@ -1,3 +1,4 @@
 pub mod smoke;
 pub mod server;
 pub mod idmath;
+pub mod rt;
